@@ -33,6 +33,8 @@ func EEA1State(ck [16]byte, count, bearer, dir uint32) snow3gspec.State {
 func wordByte(w uint32, n int) uint8 { return uint8(w >> (8 * uint(3-n))) }
 
 // EEA1KeystreamByte is octet j of the f8 keystream z1 || z2 || ...
+//
+//vc:smtfun
 func EEA1KeystreamByte(ck [16]byte, count, bearer, dir uint32, j int) uint8 {
 	return wordByte(snow3gspec.Z(EEA1State(ck, count, bearer, dir), j/4), j%4)
 }
@@ -176,6 +178,8 @@ func EEA2Counter(count uint32, bearer, dir uint8) [16]byte {
 }
 
 // EEA2KeystreamByte is octet j of the 128-EEA2 keystream.
+//
+//vc:smtfun
 func EEA2KeystreamByte(key [16]byte, count uint32, bearer, dir uint8, j int) uint8 {
 	return CTRByte(key, EEA2Counter(count, bearer, dir), j)
 }
